@@ -28,7 +28,7 @@ const (
 	EvUpdIn  = 17 // management op from inside a rule: C = op index
 	EvKey    = 18 // forRange loop key seen by the loop body  C = key
 	EvObj    = 19 // method invoked on an object kept in a local  C = the object's mark
-	EvAlias  = 22 // locals bound from injected slots and updated in place  C = 1: a local has a wrong value, 2: the injected slot changed
+	EvAlias  = 22 // locals bound from injected slots and updated in place  C = 1: a local has a wrong value, 2: the injected slot changed; C = 4: about to assign the plain name ov
 	EvCallB  = 20 // API call invoked          B = method, C = client
 	EvCallR  = 21 // API call returned         B = method, C = flags (1 err, 2 panic)
 	EvMgmtB  = 30 // management op invoked     A = op index
@@ -87,6 +87,9 @@ const (
 
 // IsRuleEvent says whether an event kind is emitted from inside rules.
 func IsRuleEvent(k int32) bool { return k >= EvS && k <= EvObj || k == EvAlias }
+
+// OptSet announces the assignment ov = r+300 (ov is injected in some calls only).
+func (h *H) OptSet(r int64) { simrt.Emit(EvAlias, int64(h.c.Idx), r, 4) }
 
 // Alias receives the locals la (= AL.Base + r) and lb (= ALQ[0] * 3) and the injected slots as they are now.
 func (h *H) Alias(r, la, lb, base, elem int64) {
@@ -309,6 +312,13 @@ func (h *H) Data() map[string]interface{} {
 	c.mu.Unlock()
 	if c.HasOpt {
 		d["Opt"] = &OptObj{ID: c.Req.ID}
+	}
+	if c.OptName {
+		v := int64(1)
+		c.mu.Lock()
+		c.OvPtr = &v
+		c.mu.Unlock()
+		d["ov"] = &v
 	}
 	if c.OddKeys {
 		// keys the pool is documented to ignore: an empty name and a nil value
